@@ -325,6 +325,7 @@ func (h *SexpHash) TypeCheckField(key Sexp, val Sexp) error {
 				if len(a.Val) == 0 {
 					return nil // okay
 				}
+				return fmt.Errorf("%v has nil Type", val.SexpString(nil))
 			case *SexpSentinel:
 				return nil // okay
 			default:
